@@ -14,17 +14,19 @@ ck = importlib.util.module_from_spec(_spec)
 _loader.exec_module(ck)
 
 SCENARIOS = {
-    "C17": ["blocking", "timeout", "contended", "in_runtime", "deadletters", "blocking_ask_vs_end", "blocking", "timeout", "contended", "blocking_ask_vs_end"],
+    "C17": ["blocking", "timeout", "contended", "in_runtime", "deadletters", "blocking_ask_vs_end", "blocking", "timeout", "contended", "blocking_ask_vs_end", "end_vs_observers"],
     "C01": ["async_mt"],
-    "C03": ["ask_vs_end", "ask_vs_end", "async_mt"],
+    "C03": ["ask_vs_end", "ask_vs_end", "async_mt", "end_vs_observers"],
     "C02": ["async_mt"],
     "C06": ["kill_then_drop", "kill_then_drop", "async_mt"],
-    "C11": ["ids"],
-    "C13": ["deadletters", "blocking"],
+    "C11": ["ids", "end_vs_observers"],
+    "C14": ["dd_mt"],
+    "C15": ["dd_mt"],
+    "C13": ["deadletters", "blocking", "end_vs_observers"],
 }
 RATES = ["0.01", "0.05", "0.2"]
 # which property does a never-returning operation violate, per scenario
-HANG_PROP = {"async_mt": "C03", "ask_vs_end": "C03"}
+HANG_PROP = {"async_mt": "C03", "ask_vs_end": "C03", "dd_mt": "C14"}
 
 def menv():
     e = ck.env()
@@ -72,7 +74,7 @@ def classify(code, out, hang_prop="C17"):
             _, prop, sig, text = l.split(" ", 3)
             v.append((prop, sig, text))
     if "the evaluated program deadlocked" in out:
-        v.append((hang_prop, "hang", "Miri reports that every thread is blocked forever: an operation never returned" + (" (an ask on an actor that has ended waits forever)" if hang_prop == "C03" else " (a blocking call never returned)")))
+        v.append((hang_prop, "hang", "Miri reports that every thread is blocked forever: an operation never returned" + ({"C03": " (an ask on an actor that has ended waits forever)", "C14": " (actors are left waiting on each other: an ask cycle was not detected)"}.get(hang_prop, " (a blocking call never returned)"))))
     elif "Undefined Behavior" in out or "Data race detected" in out:
         where = "rsactor" if "/src/actor" in out or "rsactor" in out else "elsewhere"
         if where == "rsactor":
@@ -97,7 +99,7 @@ def run_batch(prop, scenarios, n_runs, seed):
         wseed = (seed * 1000003 + i * 7919) % (1 << 31)
         mseed = (seed + i * 101) % (1 << 31)
         # the id-allocation window is a handful of instructions: pre-empt much more often there
-        rates = ["0.1", "0.3", "0.5"] if sc == "ids" else RATES
+        rates = ["0.1", "0.3", "0.5"] if sc in ("ids", "dd_mt") else RATES
         jobs.append((sc, wseed, mseed, rates[i % len(rates)]))
     results = []
     with ThreadPoolExecutor(max_workers=ck.NPROC) as ex:
@@ -149,8 +151,10 @@ def m_part(prop, tier, seed):
         n = 32 if tier == "quick" else 480
     if prop == "C06":
         n = 32 if tier == "quick" else 640
+    if prop in ("C14", "C15"):
+        n = 24 if tier == "quick" else 480
     # different properties that share a scenario explore different executions of it
-    res = run_batch(prop, SCENARIOS[prop], n, seed + {"C02": 7, "C06": 13}.get(prop, 0))
+    res = run_batch(prop, SCENARIOS[prop], n, seed + {"C02": 7, "C06": 13, "C15": 29}.get(prop, 0))
     viol, stats = summarize(prop, res)
     own = {"C01": ("C01", "C04", "C05", "C07"), "C02": ("C02",), "C03": ("C03",), "C06": ("C06",)}.get(prop, (prop, "C07"))
     viol = [v for v in viol if v[0] in own or (v[1] in ("hang", "undefined-behaviour") and v[0] == prop)]
